@@ -114,7 +114,8 @@ class StackedObservations(Generic[TObs]):
             self.stacked_obs[:, -observation.shape[self.stack_dimension] :, ...] = observation
         else:
             self.stacked_obs[..., -observation.shape[self.stack_dimension] :] = observation
-        return self.stacked_obs
+        # Return a copy: the internal window is updated in place by later calls
+        return self.stacked_obs.copy()
 
     def update(
         self,
@@ -174,4 +175,5 @@ class StackedObservations(Generic[TObs]):
             self.stacked_obs[:, shift:, ...] = observations
         else:
             self.stacked_obs[..., shift:] = observations
-        return self.stacked_obs, infos
+        # Return a copy: the internal window is updated in place by later calls
+        return self.stacked_obs.copy(), infos
